@@ -154,6 +154,8 @@ theorem step_inv (s : St) (hi : Inv s) (op : Op) : Inv (step s op).1 := by
   | filter b => exact sameChan.inv (s := s) ⟨rfl, rfl, rfl, rfl, rfl⟩ hi
   | wladd a => exact sameChan.inv (s := s) ⟨rfl, rfl, rfl, rfl, rfl⟩ hi
   | wlremove a => exact sameChan.inv (s := s) ⟨rfl, rfl, rfl, rfl, rfl⟩ hi
+  | scanfilter b => exact sameChan.inv (s := s) ⟨rfl, rfl, rfl, rfl, rfl⟩ hi
+  | scanreq pdu => simp only [step]; split <;> exact hi
   | recv pdu =>
     simp only [step]; split
     · exact hi
@@ -507,6 +509,8 @@ theorem step_budget (s : St) (ha : s.cfg.autoStart = false) (b : Nat) (h : budge
   | filter f => exact ⟨b, h, by simp [step, pduOf], rfl⟩
   | wladd a => exact ⟨b, h, by simp [step, pduOf], rfl⟩
   | wlremove a => exact ⟨b, h, by simp [step, pduOf], rfl⟩
+  | scanfilter f => exact ⟨b, h, by simp [step, pduOf], rfl⟩
+  | scanreq pdu => simp only [step]; split <;> exact same
   | recv pdu =>
     simp only [step]; split
     · exact same
